@@ -9,7 +9,7 @@ Harness ops (JSON lists):
   ['global'] ['conn_close', side] ['conn_abort', side] ['conn_wait', side]
   ['deliver', side]      next queued transport write of `side` is delivered to its peer
   ['deliver_all', side]  everything `side` has queued is delivered (what TCP does before an EOF)
-  ['cut']                the link is cut (both transports report connection_lost)
+  ['cut'] / ['cut', 'reset']  the link is cut: the byte stream ends / the transports report an error
   ['settle']             the event loop runs until nothing is ready (bounded number of turns)
 `cidx` is the ordinal of the 'open' op; the server's index of the same channel may differ.
 """
@@ -324,7 +324,8 @@ class Sim:
             for s in 'cs':
                 self.saved_meta[s] += list(self.wire.delivered_meta[s]) + list(self.wire.meta[s])
                 self.wire.delivered_meta[s] = []
-            self.wire.cut_link()
+            # ['cut'] = the stream just ends (FIN); ['cut', 'reset'] = the transport reports an error
+            self.wire.cut_link(ConnectionResetError('connection reset') if len(op) > 1 and op[1] == 'reset' else None)
         elif k == 'settle':
             await memwire.settle(SETTLE_TURNS)
             for s in 'cs':
